@@ -4,6 +4,7 @@ package spynode
 // real scale (blocksPerKey = 1000).  Model height q*K+r is real height 1000*q + rho[r].
 
 import (
+	"fmt"
 	"testing"
 
 	"github.com/tokenized/pkg/bitcoin"
@@ -47,7 +48,19 @@ type bsLine struct {
 	Obs bsObs  `json:"obs"`
 }
 
+type bsCrash struct {
+	Tr    string `json:"tr"`
+	A     string `json:"a"`   // "crash"
+	K     int    `json:"k"`   // number of storage mutations that survived
+	Of    int    `json:"of"`  // total mutations of the scenario
+	Ok    bool   `json:"ok"`  // the surviving files load to a prefix of the chain before or after the interrupted call
+	Why   string `json:"why"`
+	H     int    `json:"h"`   // loaded height
+}
+
 type bsH struct {
+	ghost        []bitcoin.Hash32   // the chain as the calls and their results define it (real scale)
+	pghost       []bitcoin.Hash32   // ... as last persisted
 	k, rtop      int
 	rho          []int
 	maxH, maxID  int
@@ -97,7 +110,21 @@ func newBS(k, rtop int, rho []int, maxH, maxID int, rmMissingOK bool) *bsH {
 	h.idOf[*g.BlockHash()] = 0
 	h.hashOf[0] = *g.BlockHash()
 	h.tsOf[g.Timestamp] = 0
+	h.ghost = []bitcoin.Hash32{*g.BlockHash()}
+	h.pghost = []bitcoin.Hash32{*g.BlockHash()}
 	return h
+}
+
+func bsIsPrefix(a, b []bitcoin.Hash32) bool {
+	if len(a) > len(b) {
+		return false
+	}
+	for i := range a {
+		if a[i] != b[i] {
+			return false
+		}
+	}
+	return true
 }
 
 // add appends real headers up to the real height of model height mh; the last one is header `id`.
@@ -119,6 +146,10 @@ func (h *bsH) add(id, mh int) string {
 		if err := blocks.Add(ctx, &hdr); err != nil {
 			return "err"
 		}
+		if len(h.ghost)%1000 == 0 {
+			h.pghost = append([]bitcoin.Hash32{}, h.ghost...) // a full file is saved on roll-over
+		}
+		h.ghost = append(h.ghost, *hdr.BlockHash())
 		if x == target {
 			h.idOf[*hdr.BlockHash()] = id
 			h.hashOf[id] = *hdr.BlockHash()
@@ -240,6 +271,7 @@ func TestVerifReplayBlockStore(t *testing.T) {
 		Scripts []struct {
 			ID    string   `json:"id"`
 			RmOK  bool     `json:"rmok"` // back end: removing a missing key succeeds
+			Crash bool     `json:"crash"` // enumerate crash points over the recorded storage mutations
 			Rho   []int    `json:"rho"`  // height map of this script (default: the payload's)
 			Steps []bsStep `json:"steps"`
 		} `json:"scripts"`
@@ -256,7 +288,13 @@ func TestVerifReplayBlockStore(t *testing.T) {
 		h := newBS(in.K, in.RTop, rho, in.MaxH, in.MaxID, sc.RmOK)
 		tr.Emit(bsLine{Tr: sc.ID, A: "reset", Obs: h.obs()})
 		mh := 0
+		type snap struct {
+			at     int // number of mutations issued before the call
+			before []bitcoin.Hash32
+		}
+		var snaps []snap
 		for _, st := range sc.Steps {
+			snaps = append(snaps, snap{at: len(h.store.muts), before: append([]bitcoin.Hash32{}, h.ghost...)})
 			ln := bsLine{Tr: sc.ID, A: st.A, T: st.T, N: st.N}
 			func() {
 				defer func() {
@@ -287,8 +325,130 @@ func TestVerifReplayBlockStore(t *testing.T) {
 				}
 			}()
 			mh = st.Mh
+			// contract layer at real scale (BlockStoreC!Ghost)
+			if ln.Rs == "ok" {
+				switch st.A {
+				case "Save":
+					h.pghost = append([]bitcoin.Hash32{}, h.ghost...)
+				case "Revert":
+					h.ghost = h.ghost[:h.R(st.T)+1]
+					h.pghost = append([]bitcoin.Hash32{}, h.ghost...)
+				case "Load":
+					h.ghost = append([]bitcoin.Hash32{}, h.pghost...)
+				}
+			}
 			ln.Obs = h.obs()
 			tr.Emit(ln)
+		}
+		if !sc.Crash {
+			continue
+		}
+		// C10: the process dies after any individual storage mutation
+		snaps = append(snaps, snap{at: len(h.store.muts), before: append([]bitcoin.Hash32{}, h.ghost...)})
+		muts := h.store.muts
+		for k := 0; k <= len(muts); k++ {
+			// the call that was interrupted: the last snapshot with at <= k (and the state after it = next snapshot's before)
+			var before, after []bitcoin.Hash32
+			for i := range snaps {
+				if snaps[i].at <= k {
+					before = snaps[i].before
+					if i+1 < len(snaps) {
+						after = snaps[i+1].before
+					} else {
+						after = before
+					}
+				}
+			}
+			c := bsCrash{Tr: sc.ID, A: "crash", K: k, Of: len(muts), Ok: true}
+			repo := storage.NewBlockRepository(h.node.config, vImage(muts, k))
+			func() {
+				defer func() {
+					if e := recover(); e != nil {
+						c.Ok, c.Why = false, fmt.Sprintf("PANIC in Load: %v", e)
+					}
+				}()
+				if err := repo.Load(ctx); err != nil {
+					c.Ok, c.Why = false, "load failed: "+err.Error()
+					return
+				}
+				c.H = repo.LastHeight()
+				loaded := make([]bitcoin.Hash32, 0, c.H+1)
+				for i := 0; i <= c.H; i++ {
+					x, err := repo.Hash(ctx, i)
+					if err != nil {
+						c.Ok, c.Why = false, fmt.Sprintf("hash(%d) after load: %v", i, err)
+						return
+					}
+					loaded = append(loaded, *x)
+					if i > 2 && i < c.H-1200 && i%1000 > 2 && i%1000 < 997 {
+						i += 90 // older files: sample (every file is read and parsed per query)
+					}
+				}
+				// sampled comparison: compare what was read position by position
+				ok := func(ref []bitcoin.Hash32) bool {
+					if c.H+1 > len(ref) {
+						return false
+					}
+					j := 0
+					for i := 0; i <= c.H; i++ {
+						if loaded[j] != ref[i] {
+							return false
+						}
+						j++
+						if i > 2 && i < c.H-1200 && i%1000 > 2 && i%1000 < 997 {
+							i += 90
+						}
+					}
+					return true
+				}
+				if !ok(before) && !ok(after) {
+					c.Ok, c.Why = false, fmt.Sprintf("loaded chain of height %d is not a prefix of the chain before (%d) or after (%d) the interrupted call", c.H, len(before)-1, len(after)-1)
+					return
+				}
+				// resume on the surviving image: grow across the next two file boundaries, save, and load again
+				// (files left behind by the interrupted call must not come back)
+				tipBefore := *repo.LastHash()
+				var added []bitcoin.Hash32
+				var repo2 *storage.BlockRepository
+				for _, upto := range []int{500, 2100} {
+					for g := len(added); g < upto; g++ {
+						prev := *repo.LastHash()
+						hdr := wire.BlockHeader{Version: 2, PrevBlock: prev, Timestamp: 9, Bits: uint32(g)}
+						if err := repo.Add(ctx, &hdr); err != nil {
+							c.Ok, c.Why = false, "add after recovery: "+err.Error()
+							return
+						}
+						added = append(added, *hdr.BlockHash())
+					}
+					if err := repo.Save(ctx); err != nil {
+						c.Ok, c.Why = false, "save after recovery: "+err.Error()
+						return
+					}
+					repo2 = storage.NewBlockRepository(h.node.config, repo.VerifStore())
+					if err := repo2.Load(ctx); err != nil {
+						c.Ok, c.Why = false, fmt.Sprintf("after recovery and growth by %d the store does not load: %v", upto, err)
+						return
+					}
+					if repo2.LastHeight() != c.H+upto || *repo2.LastHash() != added[len(added)-1] {
+						c.Ok, c.Why = false, fmt.Sprintf("after recovery, growth by %d and reload the height is %d (expected %d)", upto, repo2.LastHeight(), c.H+upto)
+						return
+					}
+					for _, off := range []int{0, 1, 2, 499, 500, 999, 1000, 1001, 1999, 2000, 2001, 2099} {
+						if off >= upto {
+							continue
+						}
+						x, err := repo2.Hash(ctx, c.H+1+off)
+						if err != nil || *x != added[off] {
+							c.Ok, c.Why = false, fmt.Sprintf("after recovery, growth by %d and reload the hash at height %d is wrong", upto, c.H+1+off)
+							return
+						}
+					}
+				}
+				if x, err := repo2.Hash(ctx, c.H); err != nil || *x != tipBefore {
+					c.Ok, c.Why = false, "after recovery, growth and reload the recovered tip is gone"
+				}
+			}()
+			tr.Emit(c)
 		}
 	}
 	_ = storage.ErrInvalidHeight
